@@ -201,7 +201,7 @@ def main(argv=None):
             'violation_mechanisms': dict(m['viol_keys']),
             'known_findings_seen': sorted(shown_known),
             'verdict': 'violated' if new else ('inconclusive' if problems else 'held on what was observed'),
-            'inconclusive_reasons': problems[:10],
+            'inconclusive_reasons': [pr[:400] for pr in problems[:10]],
             'repo': core.REPO,
         },
         'assumptions': getattr(mod, 'ASSUMPTIONS', []),
@@ -220,7 +220,7 @@ def main(argv=None):
         return 1
     if problems:
         for pr in problems[:10]:
-            print('INCONCLUSIVE property=%s reason=%s' % (prop, pr[:1500]))
+            print('INCONCLUSIVE property=%s reason=%s' % (prop, pr[:600].replace('\n', ' | ')))
         return 2
     return 0
 
